@@ -17,7 +17,8 @@ CONSTANTS States,          \* names of state functions (strings)
           CleanupTargets,  \* states a cleanup function may return
           Keys, Vals,      \* attribute names / values given to start(**kwds)
           MaxLoops,        \* StateMachine.maxloops
-          Concurrent       \* TRUE: start/stop of a 2nd thread between any two labels
+          Concurrent,      \* TRUE: start/stop of a 2nd thread between any two labels
+          Construct        \* TRUE: the constructor may be given attributes and a first state
 
 NoneS  == "none"          \* Python None (statefunc, ret, cleanup, cleanup_reason)
 Absent == "-"             \* attribute not given / not set
@@ -56,9 +57,17 @@ NoB == B("-", NoneS)
 LocalsInit == /\ pc = "idle" /\ outer = 0 /\ loops = 0 /\ ret = NoneS /\ bret = NoB /\ rsn = NoneS
               /\ site = "-" /\ cfn = NoneS /\ nsarg = NoneS /\ nssite = "-" /\ action = NoTask
 
-Init == /\ statefunc = NoneS /\ init = TRUE /\ next_task = NoTask /\ cleanup = NoneS
-        /\ cleanup_reason = NoneS /\ attrs = NoKw
-        /\ LocalsInit /\ fresh = TRUE /\ seen = FALSE
+(* StateMachine(statefunc=None, **kwds): the attributes are set at once ("0" marks a value *)
+(* given to the constructor), a first state is requested exactly like start(statefunc)     *)
+InitVal == "0"
+InitKws == IF Construct THEN {NoKw} \cup {[key \in Keys |-> IF key = k THEN InitVal ELSE Absent] : k \in Keys}
+                        ELSE {NoKw}
+InitTasks == IF Construct THEN {NoTask} \cup {StartTask(s, NoKw, NoneS) : s \in StartStates} ELSE {NoTask}
+
+InitWith(kw, task) == /\ statefunc = NoneS /\ init = TRUE /\ next_task = task /\ cleanup = NoneS
+                      /\ cleanup_reason = NoneS /\ attrs = kw
+                      /\ LocalsInit /\ fresh = TRUE /\ seen = FALSE
+Init == \E kw \in InitKws, task \in InitTasks : InitWith(kw, task)
 
 (* ---------------------------------------------------------------- start() / stop() *)
 Post(task) ==
@@ -66,6 +75,12 @@ Post(task) ==
     /\ next_task' = task
     /\ seen' = FALSE
     /\ UNCHANGED <<statefunc, init, cleanup, cleanup_reason, attrs, locals, fresh>>
+
+(* start(statefunc, **kwds) with a keyword that is a class attribute of StateMachine (init, *)
+(* statefunc, now, next_task, cleanup_reason, ...): "class attributes are not allowed to be   *)
+(* overriden by kwds of __init__ or start".  As cycle() never raises, the refusal can only    *)
+(* happen in the call itself: it raises and leaves the machine untouched.                     *)
+RejectedStart == UNCHANGED vars
 
 (* --------------------------------------------------------------------------- cycle() *)
 Return ==  \* leave cycle(); dead locals are reset
@@ -247,7 +262,7 @@ InCleanupFn == pc \in {"cl_reason", "cl_chk", "cl_take", "cl_call"}
 TypeOK == /\ statefunc \in States \cup {NoneS} /\ init \in BOOLEAN
           /\ next_task \in Posts \cup {NoTask}
           /\ cleanup \in Cleanups /\ cleanup_reason \in {NoneS, "start", "stop", "error"}
-          /\ attrs \in Kwds /\ pc \in PCs
+          /\ attrs \in [Keys -> Vals \cup {Absent, InitVal}] /\ pc \in PCs
 
 (* one cycle is bounded: both loops are bounded, cycle() has no exit by exception     *)
 (* ("raised" is not a label); termination itself is the temporal property CycleEnds   *)
